@@ -16,6 +16,7 @@ import (
 	"strings"
 	"sync"
 	"testing"
+	"time"
 
 	"verif/lib/ev"
 	"verif/lib/iamflow"
@@ -156,7 +157,67 @@ func TestCheck(t *testing.T) {
 			r.Unspecified("user-redirect-token-honoured-twice")
 		}
 	}
+	afterWindowReplay(r, w)
 	r.Extra("distinct_interleavings_observed", r.DistinctN("interleavings"))
+}
+
+// afterWindowReplay: sequential replay of an s2s presentation after the nonce's retention has elapsed but while the
+// presentation itself is still inside its acceptance window. The presentation is signed by a harness-owned did:jwk holder
+// and dated a few seconds into the future (within the allowed clock skew), which is what makes its acceptance window
+// outlast the retention of its nonce. Real waiting (about 11 s); a stopwatch decides whether the replay was in time.
+func afterWindowReplay(r *ev.Run, w *iamflow.World) {
+	h := iamflow.NewHolder()
+	cred, err := w.IssueTo(w.Client, h.DID, iamflow.IssueOpts{})
+	if err != nil {
+		r.Fatalf("issue: %v", err)
+	}
+	rounds := r.Pick(1, 3)
+	for i := 0; i < rounds; i++ {
+		start := time.Now()
+		nbf := start.Add(4 * time.Second)
+		// JSON-LD presentation: proof.created may lie up to the allowed skew in the future (JWT presentations with a future nbf are refused outright)
+		vpDoc, err := h.SignLDVP(w.N, iamflow.LDVP{Created: nbf, Expires: nbf.Add(5 * time.Second), Domain: w.Verifier.URL, Nonce: fmt.Sprintf("late-%d-%d", start.UnixNano(), i), Credentials: []json.RawMessage{cred}})
+		if err != nil {
+			r.Fatalf("sign JSON-LD presentation: %v", err)
+		}
+		vp := string(vpDoc)
+		sub, _ := json.Marshal(map[string]any{"id": "s", "definition_id": "pd_org", "descriptor_map": []any{map[string]any{"id": "id_org", "format": "ldp_vc", "path": "$.verifiableCredential[0]"}}})
+		form := url.Values{"grant_type": {"vp_token-bearer"}, "assertion": {vp}, "presentation_submission": {string(sub)}, "scope": {"test"}, "client_id": {"https://client.example/oauth2/h"}}
+		post := func() (bool, string) {
+			return tokenOK(node.Do("POST", w.N.Public+"/oauth2/"+w.Verifier.Name+"/token", form.Encode(), map[string]string{"Content-Type": "application/x-www-form-urlencoded"}))
+		}
+		ok1, d1 := post()
+		r.Count("presentations", 1)
+		if !ok1 {
+			// a node that refuses presentations dated into the future has no such window: nothing to observe
+			r.Unspecified("future-dated-presentation-refused")
+			r.Case("s2s-nonce/after-retention/refused-upfront", false)
+			fmt.Printf("NOTE: property=C05 future-dated presentation refused up front: %.160s\n", d1)
+			return
+		}
+		ok2, _ := post() // immediate replay: refused
+		r.Count("presentations", 1)
+		if ok2 {
+			r.Violation("C05/replay/s2s-nonce", "immediate replay of a future-dated presentation succeeded", nil)
+		}
+		// nonce retention is 10 s from first use; the presentation is acceptable until nbf+5 s+5 s skew = start+14 s
+		time.Sleep(time.Until(start.Add(11500 * time.Millisecond)))
+		ok3, d3 := post()
+		elapsed := time.Since(start)
+		r.Count("presentations", 1)
+		r.Case("s2s-nonce/after-retention", true)
+		if elapsed > 13500*time.Millisecond {
+			r.Inconclusive(fmt.Sprintf("after-retention replay came too late (%.1fs after start)", elapsed.Seconds()))
+			continue
+		}
+		if ok3 {
+			r.Violation("C05/retention/s2s-nonce", fmt.Sprintf("a presentation honoured at t=0 was honoured again %.1f s later: its nonce was forgotten while the presentation was still acceptable", elapsed.Seconds()),
+				map[string]any{"first": d1, "replay": d3, "nbf_offset_s": 4, "elapsed_s": elapsed.Seconds()})
+		}
+		if i == 0 {
+			r.Sample(map[string]any{"class": "s2s-nonce", "mode": "after-retention-replay", "first": ok1, "immediate_replay": ok2, "replay_after_s": elapsed.Seconds(), "replay_honoured": ok3})
+		}
+	}
 }
 
 type result struct {
